@@ -23,15 +23,15 @@ The theorems are about the code with `fixes/C46-active-segment.diff` applied (`N
 | … for any pattern of server failures, corrupted or inconsistent shares | node/fetcher theorems allow every answer for every started share in any order (`NEvOk` only forbids OVERDUE from a share that is not outstanding); decode / ciphertext-hash failures = `badSegs` in `no_stuck_state`; the mapping from server faults to share events: monitor only |
 | … late answers | OVERDUE events in the fetcher model (theorem); finder / DYHB overdue timers: `C03.finder_answers_every_hungry` (ShareFinder model) |
 | … concurrent reads on the same file object | `no_stuck_state` quantifies over any interleaving of `getSegment` requests (several per segment, several segments) and cancels; each read is its own `Seg` (`read_never_idle`) — concurrency between reads exists only through the node queue |
-| a read never hangs once every server has answered or failed | `no_stuck_state` + `read_terminates_when_answered`; `NQuiescent` = "every server has answered or failed" at the fetcher interface; that the finder reaches that state: `C03.finder_answers_every_hungry` (every `want_more_shares` is answered by `got_shares` or `no_more_shares` once every server call returned or failed); that the shares do (every `get_block` gets a terminal event): assumption, monitor only (share.py not modelled) |
+| a read never hangs once every server has answered or failed | `no_stuck_state` + `read_terminates_when_answered`; `NQuiescent` = "every server has answered or failed" at the fetcher interface; that the finder reaches that state: `idle_fetcher_has_asked_for_more` (an idle un-told fetcher has called `want_more_shares`) + `C03.finder_answers_every_hungry` (every `want_more_shares` is answered by `got_shares` or `no_more_shares` once every server call returned or failed); that the shares do (every `get_block` gets a terminal event): assumption, monitor only (share.py not modelled) |
 | a failed read does not prevent later reads from completing | `later_reads_progress` (after any history incl. failed segments a new request is accepted by a fresh running fetcher and retired at quiescence); `unfixed_stuck_counterexample` (the code before the fix violated it) |
 | quantifier: decode failures and ciphertext hash mismatches followed by further reads on the same node | `no_stuck_state` / `later_reads_progress` with `badSegs`; end-to-end: crafted shares (monitor) |
 | wrong segment-size guess / BadSegmentNumberError retry (seeded C46-c) | `bad_segnum_retry`, `read_never_idle`; `read_writes_exact_range` |
 
 Remaining assumptions: the environment predicates `NEvOk`/`NQuiescent` and `SEvOk` (answers only for
 outstanding requests; every queued `eventually` turn runs); ShareFinder answers every
-`want_more_shares` with `add_shares` or `no_more_shares` (proved for the separate finder model,
-`C03.finder_answers_every_hungry`; not composed with `Sys` in one system);
+`want_more_shares` with `add_shares` or `no_more_shares` (both halves proved — fetcher: `idle_fetcher_has_asked_for_more`,
+finder: `C03.finder_answers_every_hungry` — but finder and `Sys` are not one transition system yet);
 every `get_block` gets a terminal event (share.py not modelled; true for dead shares since 4f1ea1b);
 `eventually(self._deliver, …)` fires the request's Deferred exactly once (Twisted/foolscap); decode in
 the CPU thread pool is one atomic step; a consumer that pauses a read resumes it.
@@ -126,6 +126,29 @@ theorem do_loop_terminates (s : Fetcher) (h : Out.exc .fuel ∉ s.out) : Out.exc
     · show Out.exc .fuel ∉ (stop s).out; rw [stop_out]; exact h
     · exact whileLoop_fuel h _ (mu_lt_fuelFor s)
 
+
+
+/-- **C46 (10), the fetcher's half of the finder contract.**  Every `loop` turn that leaves the
+fetcher running, not yet told `no_more_shares` and without any block request outstanding has called
+`node.want_more_shares()` (→ `ShareFinder.hungry()`) during that turn.  Together with
+`C03.finder_answers_every_hungry` (a hungry finder with no query in flight has delivered shares or
+announced `no_more_shares`) this is why a quiescent system satisfies the `noMore` clause of
+`NQuiescent`: the fetcher cannot sit idle un-told without having asked, and the finder cannot stay
+asked without answering. -/
+theorem idle_fetcher_has_asked_for_more (s : Fetcher) (hact : ∀ x ∈ s.active, x ∈ s.outstanding) :
+    (doLoop { s with out := [] }).running = true → (doLoop { s with out := [] }).noMore = false →
+    (doLoop { s with out := [] }).outstanding = [] → Out.wantMore ∈ (doLoop { s with out := [] }).out := by
+  unfold doLoop
+  split
+  · rename_i hr
+    intro hrun
+    simp only [Bool.not_eq_true', ] at hr
+    simp [hr] at hrun
+  · rename_i hr
+    simp only [Bool.not_eq_true, Bool.not_eq_false'] at hr
+    split
+    · intro hrun; simp [stop, hr] at hrun
+    · exact whileLoop_asks (s := { s with out := [] }) hact hr _ (mu_lt_fuelFor _)
 
 /-! ### the read layer (`Segmentation`) -/
 
@@ -327,5 +350,11 @@ example : SysValid (sysInit 1 2 [] 32 16 5) exSys := by
 example : SysQuiescent (sysRun (sysInit 1 2 [] 32 16 5) exSys) ∧
     (sysRun (sysInit 1 2 [] 32 16 5) exSys).reads.map (fun r => (r.rid, r.seg.result, r.seg.offset)) =
       [(0, some none, 28), (1, some none, 23)] := by decide
+
+
+/-- a fresh 2-of-N fetcher that was given one share: it starts it and asks for more; once that share
+has answered CORRUPT the next turn asks again -/
+example : (doLoop { (step (step (step (init 2) (.addShares [sh 0 0 0 0])) .loop) (.share (sh 0 0 0 0) .corrupt)) with out := [] }).out
+    = [.wantMore] := by decide
 
 end Tahoe.C46
